@@ -1,12 +1,14 @@
-import MJ.Model.Depth
+import MJ.Model.DepthHop
 /-! Line driver for C11: `<shape> <limit> <budget> <thread>` → `<case>\t<status>\t<hw_depth>\t<hw_native>`
     as predicted by the depth-accounting model (`MJ.Depth.predict*`). -/
 open MJ.Depth
 
 def parseEdge (s : String) : Option Edge :=
   match s.toList with
-  | [k, w, f, _x, n] =>
-    if w.isDigit ∧ f.isDigit then some ⟨k, w.toNat - '0'.toNat, f.toNat - '0'.toNat, n⟩ else none
+  | [k, w, f, x, n] =>
+    if w.isDigit ∧ f.isDigit ∧ x.isDigit then
+      some ⟨k, w.toNat - '0'.toNat, f.toNat - '0'.toNat, n, x.toNat - '0'.toNat⟩
+    else none
   | _ => none
 
 def parseEdges (s : String) : Option (Array Edge) :=
@@ -42,10 +44,49 @@ def unshift (dd dn : Nat) : Pred → Pred
   | .recursion m => .recursion ⟨m.depthHW - dd, m.nativeHW - dn⟩
   | p => p
 
+def showPredH : PredH → String
+  | .ok m => s!"ok\t{m.m.depthHW}\t{m.m.nativeHW}"
+  | .recursion m => s!"err:recursion\t{m.m.depthHW}\t{m.m.nativeHW}"
+  | .other w => s!"model:{w}\t0\t0"
+
+def hopsOf : PredH → Nat
+  | .ok m => m.hopsHW
+  | .recursion m => m.hopsHW
+  | .other _ => 0
+
+/-- `budget <label> <stack> <root> <hopBytes> <H> <macro> <caller> <include> <block> <super> <mask>`:
+    evaluates `budgetOK` / `frameLowerOK` (the hypotheses of `stack_budget_holds` /
+    `frame_constants_tied`) on measured values; `mask` = five characters `1`/`0`, the kinds `P` -/
+def handleBudget (f : List String) : String :=
+  match f with
+  | [label, stack, root, hopB, h, m, c, i, b, sup, mask] =>
+    match [stack, root, hopB, h, m, c, i, b, sup].map String.toNat? with
+    | [some stack, some root, some hopB, some h, some m, some c, some i, some b, some sup] =>
+      let bytes : Kind → Nat
+        | .macroCall => m | .callerCall => c | .includeTpl => i | .blockCall => b | .superCall => sup
+      let bits := mask.toList
+      let P : Kind → Bool
+        | .macroCall => bits[0]? == some '1' | .callerCall => bits[1]? == some '1'
+        | .includeTpl => bits[2]? == some '1' | .blockCall => bits[3]? == some '1'
+        | .superCall => bits[4]? == some '1'
+      let ok := budgetOK stack root hopB h bytes P
+      let lower := (allKinds.filter P).all (fun k => decide (MJ.Gen.evalImplArrayBytes ≤ bytes k))
+      s!"budget\t{label}\t{ok}\t{rho (withHops hopB h bytes) P}\t{projected root hopB h bytes P}\t{stack}\t{lower}\t{MJ.Gen.evalImplArrayBytes}"
+    | _ => s!"budget\t{label}\tbad-input"
+  | _ => "budget\t?\tbad-input"
+
 def handle (line : String) : String :=
   let case := (line.splitOn "\t").head!
+  if case.startsWith "budget " then handleBudget ((case.trimAscii.toString.splitOn " ").drop 1) else
   match case.trimAscii.toString.splitOn " " with
   | [shape, limit, budget, thread] =>
+    if shape.startsWith "X:" then
+      match limit.toNat?, budget.toNat?, parseEdges (shape.drop 2).toString with
+      | some l, some b, some edges =>
+        let (p, v) := predictX edges (setRecursionLimit l) (if b = 0 then none else some b)
+        s!"{case}\t{showPredH p}\t{v}\t{hopsOf p}"
+      | _, _, _ => s!"{case}\tbad-case\t0\t0\t0"
+    else
     match limit.toNat?, budget.toNat? with
     | some l, some b =>
       let l' := setRecursionLimit l
